@@ -293,6 +293,9 @@ fn child<W: World>(w: &mut W, trace: &mut Vec<W::Op>, op: W::Op, remaining: u8, 
                 _ => Visit::Deeper,
             }
         };
+        if std::env::var_os("KV_DUMP_NODES").is_some() {
+            eprintln!("NODE {h:016x} {} rem={rem} dedup={} {}", match v { Visit::New => "new", Visit::Deeper => "deeper", Visit::Seen => "seen" }, g.opts.dedup, serde_json::to_string(&trace).unwrap_or_default());
+        }
         if matches!(v, Visit::New) {
             for (k, what) in w.check_state() {
                 g.counters.add(C_VIOLS, 1);
@@ -343,6 +346,7 @@ pub fn replay<W: World>(w: &mut W, trace: &Value) -> Result<Vec<(String, String)
         eprintln!("replay: {op:?} -> {label}");
         out.extend(w.check(Some((&op, &label))));
         out.extend(w.check_state());
+        eprintln!("replay: state {:016x}", w.canon());
     }
     Ok(out)
 }
